@@ -120,6 +120,35 @@ pub fn c06(o: &Opts) -> Outcome {
             if let Some(w) = check_file(&path, &recs, if fq { "fq-gz with empty members" } else { "fa-gz with empty members" }) { return Outcome { cases, witness: Some(w) }; }
         }
     }
+    // every documented file-name suffix, plain and gzipped, in directories whose names look like other suffixes
+    {
+        let recs: Vec<(String, Vec<u8>)> = (0..3).map(|i| (format!("s{}", i), (0..12 + i).map(|j| b"ACGT"[(i + j) % 4]).collect())).collect();
+        for (suffix, fq) in [("fa", false), ("fasta", false), ("fna", false), ("fq", true), ("fastq", true)] {
+            for gzipped in [false, true] {
+                for dir in ["plain", "dir.fq", "dir.fa.gz"] {
+                    let sc = Scratch::new("reader");
+                    std::fs::create_dir_all(sc.path(dir)).unwrap();
+                    let path = sc.path(&format!("{}/genome.v1.{}{}", dir, suffix, if gzipped { ".gz" } else { "" }));
+                    let bytes = if fq { fastq_bytes(&recs) } else { fasta_bytes(&recs, 0, false) };
+                    std::fs::write(&path, if gzipped { gz(&bytes) } else { bytes }).unwrap();
+                    cases += 1;
+                    let p2 = path.clone();
+                    let fmt = guarded(move || ktio::seq::SeqFormat::get(&p2).map(|f| matches!(f, ktio::seq::SeqFormat::Fastq)));
+                    if fmt != Ok(Some(fq)) {
+                        return Outcome { cases, witness: Some(vec![("container".into(), format!("file name {}/genome.v1.{}{}", dir, suffix, if gzipped { ".gz" } else { "" })), ("records".into(), recs.iter().map(|r| show(&r.1)).collect::<Vec<_>>().join("|")), ("why".into(), format!("format inferred from the name: {:?} (Some(true) = FASTQ), expected {}", fmt, if fq { "FASTQ" } else { "FASTA" }))]) };
+                    }
+                    if let Some(w) = check_file(&path, &recs, &format!("file name genome.v1.{}{}", suffix, if gzipped { ".gz" } else { "" })) { return Outcome { cases, witness: Some(w) }; }
+                }
+            }
+        }
+        // names that are not sequence files are refused (no format)
+        for name in ["reads.txt", "reads.fa.bz2", "reads", "fa", "reads.fagz", "reads.gz"] {
+            cases += 1;
+            let n2 = name.to_string();
+            let fmt = guarded(move || ktio::seq::SeqFormat::get(&n2).is_some());
+            if fmt != Ok(false) { return Outcome { cases, witness: Some(vec![("container".into(), format!("file name {}", name)), ("records".into(), String::new()), ("why".into(), format!("a name without a sequence suffix got a format ({:?})", fmt))]) }; }
+        }
+    }
     // inputs without any record: a zero-byte file, a gzip file with an empty payload, a file holding one newline
     for (name, bytes) in [("empty.fa", Vec::new()), ("empty.fq", Vec::new()), ("empty.fa.gz", gz(b"")), ("empty.fastq.gz", gz(b""))] {
         let sc = Scratch::new("reader");
